@@ -179,7 +179,7 @@ func (e *Engine) VerifyFunc(fn *ssa.Function, blk *Block, props []string) (err e
 				for _, cl := range blk.Of("waive") {
 					parts := strings.SplitN(cl.Text, "::", 2)
 					f := strings.SplitN(strings.TrimSpace(parts[0]), ":", 2)
-					if ob.Kind == f[0] && (len(f) == 1 || strings.Contains(ob.Label, f[1])) && ob.Status == "" {
+					if ob.Kind == f[0] && (len(f) == 1 || strings.Contains(ob.Label, f[1]) || strings.HasSuffix(ob.Name, ":"+f[1])) && ob.Status == "" {
 						ob.Status = "waived"
 						if len(parts) == 2 {
 							ob.Err = strings.TrimSpace(parts[1])
